@@ -187,6 +187,11 @@ C15_StartStores ==
        \A f \in cf.fans :
           /\ (cnt[f].sweeps > 0 /\ reg[f] => db'[f].map)
           /\ (cnt[f].meas > 0 /\ reg[f] => db'[f].data)]_mvars
+\* what the user discarded stays discarded: RPM-curve data of a hwmon fan comes into the database through a measurement only -
+\* a process that did not measure the fan (after the last discard) does not leave any behind when it ends
+C15_DiscardedStays ==
+  [][(l <= N /\ Trace[l].ev = "Final") =>
+       \A f \in cf.fans : (cf.kind[f] = "hwmon" /\ cf.hasRpm[f] /\ ~db[f].data /\ cnt[f].meas = 0) => ~db'[f].data]_mvars
 \* C13 on a real analysis: the start PWM that the initialization sequence derives (reported by the "Attached" hook) is the
 \* lowest value the device supports at which the plant turns - the lowest MEASURED value with a non-zero RPM
 LevelsOf(q) == LET qq == IF q < 1 THEN 1 ELSE q IN {k * qq : k \in 0..(254 \div qq)} \cup {255}
